@@ -1968,6 +1968,7 @@ func (ls *LState) Resume(th *LState, fn *LFunction, args ...LValue) (ResumeState
 		})
 	}
 
+	th.wrapped = false // results come back as (ok, values...) however the thread was created
 	if ls.G.CurrentThread == th {
 		return ResumeError, newApiErrorS(ApiErrorRun, "can not resume a running thread"), nil
 	}
